@@ -38,6 +38,7 @@ class Policy:
     p_metadata: float = 0.0
     p_options_repeat: float = 0.0
     p_split_graph: float = 0.0     # GRAPHS: close and reopen the same graph
+    p_empty_graph: float = 0.0     # GRAPHS: graph_start / graph_end blocks without any triple
     frame_cut: str = "random"      # random | one | each | fixed
     frame_size: int = 5
 
@@ -51,7 +52,7 @@ class Policy:
             p_elide=rng.choice([1.0, 0.5, 0.0]),
             p_early=z(0.3), p_redundant=z(0.2), p_random_slot=z(0.4),
             p_empty_frame=z(0.2), p_metadata=z(0.3), p_options_repeat=z(0.15),
-            p_split_graph=z(0.3),
+            p_split_graph=z(0.3), p_empty_graph=z(0.2),
             frame_cut=rng.choice(["random", "one", "each", "fixed"]),
             frame_size=rng.choice([1, 2, 3, 7, 20]),
         )
@@ -66,7 +67,7 @@ class Policy:
             self.evict != "lru", self.split != "sep", self.p_explicit_id > 0,
             self.p_early > 0, self.p_redundant > 0, self.p_options_repeat > 0,
             self.p_empty_frame > 0, self.p_elide < 1.0, self.p_random_slot > 0,
-            self.p_split_graph > 0, self.p_metadata > 0,
+            self.p_split_graph > 0, self.p_metadata > 0, self.p_empty_graph > 0,
         ])
 
 
@@ -326,6 +327,13 @@ class Producer:
                         self.rows.append(("graph_end", {}))
                         if reopen:
                             self.used["split-graph"] += 1
+                    if self.rng.random() < self.pol.p_empty_graph:
+                        # a graph that holds no triple: legal, denotes no statement
+                        eg = self.rng.choice([("default",), ("bnode", "empty"), ("iri", "http://ex.org/ns/empty-graph")])
+                        self.rows.append(("graph_start", {"g": self._term(eg)}))
+                        self.rows.append(("graph_end", {}))
+                        self._unpin()
+                        self.used["empty-graph"] += 1
                     gt = self._term(g)
                     self.rows.append(("graph_start", {"g": gt}))
                     self._unpin()
